@@ -225,6 +225,42 @@ stale_entry_unit(True)
 stale_entry_unit(False)
 
 
+def restored_state_unit(auto_update):
+    @unit(f"C17.after_state_restore.auto_{'on' if auto_update else 'off'}", "C17", [f"{M}::Model.simulate", f"{M}::Model.state.fget", f"{M}::Model.state.fset", f"{M}::Model.update", f"{N}::Dist.update",
+                                                                                   f"{N}::Dist.init_dist"],
+          assumptions=["graph: mu ~ Pmu parameter; eta = f_eta(mu) cached; x ~ Lik(eta) observed; history: mu = A, state saved, mu = B (every node refreshed at B), the saved state "
+                       "assigned back, simulate(seed, skip=['mu'])"])
+    def u(ip, auto_update=auto_update):
+        """the values simulate() conditions on are the model's CURRENT ones also when they were put in place by assigning a stored state (model.state = s):
+        a variable whose ancestors are skipped is drawn at the restored ancestor values, not at those of an earlier update."""
+        c = ip.ctx
+        install_graph_models(ip)
+        install_sim_models(ip)
+        g = G(ip)
+        mu = g.var("mu", dist=g.dist("Pmu"), parameter=True)
+        eta = g.var("eta", value=g.calc("f_eta", mu))
+        x = g.var("x", dist=g.dist("Lik", eta), observed=True)
+        model = g.build(x)
+        A, Bv = z3.Const("val_A", U), z3.Const("val_B", U)
+        ip.setattr(model.f["_vars"]["mu"], "value", A)
+        ip.call(method(ip, model, "update"), [], {})
+        saved = ip.getattr(model, "state")
+        ip.setattr(model.f["_vars"]["mu"], "value", Bv)
+        ip.call(method(ip, model, "update"), [], {})
+        if not auto_update:
+            ip.setattr(model, "auto_update", False)
+        ip.setattr(model, "state", saved)
+        ip.call(method(ip, model, "simulate"), [z3.Const("seed", U)], {"skip": ["mu"]})
+        new_x = ip.to_U(ip.getattr(model.f["_vars"]["x"], "value"))
+        c.oblige("skipped_variable_untouched", ip.to_U(ip.getattr(model.f["_vars"]["mu"], "value")).eq(A))
+        c.oblige("child_drawn_at_the_restored_ancestor_values", new_x.decl().name().startswith("draw_Lik") and new_x.arg(0).eq(ip.uf("f_eta", A)))
+    return u
+
+
+restored_state_unit(True)
+restored_state_unit(False)
+
+
 # the caching protocol this property's statement rests on (values and densities "after updating")
 from contracts.c01 import register_cache_core  # noqa: E402
 
